@@ -22,9 +22,9 @@ CLS = "gmlc::concurrency::Barrier"
 
 
 def run(ctx):
-    ctx.rule("C09.guard", "A3: threshold_, count_, generation_ only under mtx", floor=12)
+    ctx.rule("C09.guard", "A3: threshold_, count_, generation_ only under mtx", floor=6)
     ctx.step(check_guarded_fields, ctx, "C09.guard", CLS)
-    ctx.rule("C09.cv", "waits: lock owns mtx, predicate-form, predicate reads generation_ only", floor=4)
+    ctx.rule("C09.cv", "waits: lock owns mtx, predicate-form, predicate reads generation_ only", floor=2)
     ws = ctx.step(check_waits, ctx, "C09.cv", CLS, "cv", "mtx", ["generation_"]) or []
     ctx.step(epoch, ctx, ws)
     ctx.step(wake, ctx)
@@ -55,27 +55,48 @@ def field_writes(ctx, f, field):
     return out
 
 
+def _callers(ctx, g):
+    """(caller function, call stmt) of member function g on this, inside the class"""
+    out = []
+    for f, top in class_functions(ctx.fb, CLS):
+        for st in f.stmts.values():
+            if st["k"] == "CXXMemberCallExpr" and (st.get("callee") or {}).get("id") == g.id and path(f, f.s(st["obj"])) == "this":
+                out.append((f, st))
+    return out
+
+
+def _arrival_points(ctx, f):
+    """positions in f at which this thread's arrival is counted: a decrement of count_, or a call of a
+    class member that (directly) decrements it"""
+    pts = [(s, "dec") for s, op in field_writes(ctx, f, "count_") if op != "="]
+    for st in f.stmts.values():
+        if st["k"] == "CXXMemberCallExpr" and path(f, f.s(st["obj"])) == "this":
+            g = ctx.fb.callee_fn(f, st)
+            if g is not None and g.rec == CLS and any(op != "=" for _s, op in field_writes(ctx, g, "count_")):
+                pts.append((st, "call"))
+    return pts
+
+
 def epoch(ctx, ws):
     rid = "C09.epoch"
     ctx.rule(rid, "the wait predicate is (captured generation != generation_), the capture happens under the lock "
-             "before the arrival is counted, and generation_ is only ever incremented", floor=4)
+             "before the arrival is counted, and generation_ is only ever incremented", floor=3)
     fb = ctx.fb
-    # generation_ is only incremented
     kinds = []
     for f, top in class_functions(fb, CLS):
         if top.kind in ("ctor", "dtor"):
             continue
         for st, op in field_writes(ctx, f, "generation_"):
             kinds.append((f, st, op))
-    ok = bool(kinds) and all(op == "++" for _f, _s, op in kinds)
-    site = kinds[0][0].loc(kinds[0][1]) if kinds else "gmlc/concurrency/Barrier.hpp"
-    ctx.ob(rid, ok, site, "generation_ is modified by increments only (a released generation is never undone)",
+    if not kinds:
+        ctx.broken("no write to Barrier::generation_ (the epoch field vanished)")
+    ok = all(op == "++" for _f, _s, op in kinds)
+    ctx.ob(rid, ok, kinds[0][0].loc(kinds[0][1]), "generation_ is modified by increments only (a released generation is never undone)",
            "" if ok else "modifications: %s" % [(f.loc(s), op) for f, s, op in kinds])
     for f, top, st in ws:
         g = predicate_lambda(ctx, f, st)
         if g is None:
             continue
-        # predicate: return <captured> != generation_
         rets = [s for s in g.stmts.values() if s["k"] == "ReturnStmt"]
         ok = False
         cap = None
@@ -85,27 +106,45 @@ def epoch(ctx, ws):
                 l, r = [path(g, x) for x in g.children(e)]
                 if "this.generation_" in (l, r):
                     cap = r if l == "this.generation_" else l
-                    ok = cap is not None and cap.startswith("l:")
+                    ok = cap is not None and (cap.startswith("l:") or cap.startswith("p:"))
         ctx.ob(rid, ok, f.loc(st), "predicate is (captured value != generation_)",
-               "" if ok else "different predicate shape", fn=top.label, inst=f.qname)
+               "" if ok else "the predicate is not an epoch comparison: it can be made false again by threads that lap the waiter",
+               fn=top.label, inst=f.qname)
         if not ok:
             continue
-        # the captured local is initialised from generation_ before the decrement of count_
-        decl = None
-        for s in f.stmts.values():
-            if s["k"] == "DeclStmt":
-                for d in s["decls"]:
-                    if "l:" + d["name"] == cap and path(f, f.s(d.get("init"))) == "this.generation_":
-                        decl = s
-        decs = [s for s, op in field_writes(ctx, f, "count_") if op == "--"]
-        ok = decl is not None and bool(decs) and all(f.dominates(f.pos_of(decl), f.pos_of(d)) for d in decs)
-        ctx.ob(rid, ok, f.loc(st), "the generation is captured (under the lock) before this arrival is counted",
-               "" if ok else "capture does not dominate the decrement of count_", fn=top.label, inst=f.qname)
+        # where the captured value comes from: a local of this function, or (private helper) of each caller
+        sites = []
+        if cap.startswith("l:"):
+            sites.append((f, cap, None))
+        else:
+            if top.access != "private":
+                ctx.ob(rid, False, f.loc(st), "the compared value is captured inside the barrier", "it is a parameter of a public function",
+                       fn=top.label, inst=f.qname)
+                continue
+            idx = [i for i, p_ in enumerate(top.params) if "p:" + p_["name"] == cap]
+            for cf, call in _callers(ctx, top):
+                a = cf.s(call["args"][idx[0]]) if idx and idx[0] < len(call["args"]) else None
+                sites.append((cf, path(cf, a) if a is not None else None, call))
+            if not sites:
+                ctx.broken("private helper %s with the wait has no caller" % top.name)
+        for cf, var, call in sites:
+            decl = None
+            for s_ in cf.stmts.values():
+                if s_["k"] == "DeclStmt":
+                    for d in s_["decls"]:
+                        if var and "l:" + d["name"] == var and path(cf, cf.s(d.get("init"))) == "this.generation_":
+                            decl = s_
+            pts = _arrival_points(ctx, cf)
+            ok = decl is not None and bool(pts) and all(cf.dominates(cf.pos_of(decl), cf.pos_of(p_)) and
+                                                        cf.pos_of(decl) != cf.pos_of(p_) for p_, _k in pts)
+            ctx.ob(rid, ok, cf.loc(decl) if decl is not None else cf.where,
+                   "the generation is captured (under the lock) before this arrival is counted",
+                   "" if ok else "the compared value is not a copy of generation_ taken before the arrival", fn=cf.label, inst=cf.qname)
 
 
 def wake(ctx):
     rid = "C09.wake"
-    ctx.rule(rid, "every write to generation_ is followed on every path by cv.notify_all()", floor=2)
+    ctx.rule(rid, "every write to generation_ is followed on every path by cv.notify_all()", floor=1)
     n = 0
     for f, top in class_functions(ctx.fb, CLS):
         if top.kind in ("ctor", "dtor"):
@@ -122,16 +161,15 @@ def wake(ctx):
 def arrive(ctx):
     rid = "C09.arrive"
     ctx.rule(rid, "every decrement of count_ is the operand of the release test; its true branch bumps the "
-             "generation, resets count_ from threshold_ and notifies; wait_and_drop lowers threshold_ first", floor=5)
+             "generation, resets count_ from threshold_ and notifies; wait_and_drop lowers threshold_ first", floor=4)
     fb = ctx.fb
-    seen = set()
+    ndec = 0
     for f, top in class_functions(fb, CLS):
         if top.kind in ("ctor", "dtor") or f.is_lambda:
             continue
         decs = [s for s, op in field_writes(ctx, f, "count_") if op != "="]
         for d in decs:
-            seen.add(f.name)
-            # the decrement is (part of) a branch condition
+            ndec += 1
             pos = f.pos_of(d)
             blk = f.blocks[pos[0]]
             cond = f.s(blk.term["cond"]) if blk.term and blk.term.get("cond") else None
@@ -150,13 +188,18 @@ def arrive(ctx):
                         and path(f, f.children(s)[1]) == "this.threshold_" for s in tstm)
             ctx.ob(rid, bump and reset, f.loc(d), "the release branch bumps generation_ and resets count_ from threshold_",
                    "" if bump and reset else "bump=%s reset=%s" % (bump, reset), fn=top.label, inst=f.qname)
-        if f.name == "wait_and_drop":
-            th = [s for s, op in field_writes(ctx, f, "threshold_") if op == "--"]
-            ok = len(th) == 1 and bool(decs) and all(f.dominates(f.pos_of(th[0]), f.pos_of(d)) and
-                                                     f.pos_of(th[0]) != f.pos_of(d) for d in decs)
-            ctx.ob(rid, ok, f.where, "wait_and_drop lowers threshold_ before counting its arrival (test and reset see the new threshold)",
-                   "" if ok else "threshold_ is not decremented exactly once before the arrival test", fn=top.label, inst=f.qname)
+    if ndec == 0:
+        ctx.broken("no decrement of Barrier::count_ found (the arrival counter vanished)")
     for nm in ("wait", "wait_and_drop"):
-        if nm not in seen:
-            ctx.ob(rid, False, "gmlc/concurrency/Barrier.hpp", "%s counts its own arrival" % nm,
-                   "no decrement of count_ in %s itself" % nm)
+        for f in fb.functions(rec=CLS, name=nm):
+            pts = _arrival_points(ctx, f)
+            every = [p_ for p_, _k in pts if f.postdominates(f.pos_of(p_), (f.entry, 0))]
+            ok = len(pts) == 1 and len(every) == 1
+            ctx.ob(rid, ok, f.where, "%s counts exactly one arrival on every path" % nm,
+                   "" if ok else "%d arrival point(s), %d on every path" % (len(pts), len(every)), fn=f.label, inst=f.qname)
+            if nm == "wait_and_drop" and pts:
+                th = [s for s, op in field_writes(ctx, f, "threshold_") if op == "--"]
+                ok = len(th) == 1 and all(f.dominates(f.pos_of(th[0]), f.pos_of(p_)) and f.pos_of(th[0]) != f.pos_of(p_)
+                                          for p_, _k in pts)
+                ctx.ob(rid, ok, f.where, "wait_and_drop lowers threshold_ before counting its arrival (test and reset see the new threshold)",
+                       "" if ok else "threshold_ is not decremented exactly once before the arrival", fn=f.label, inst=f.qname)
